@@ -25,6 +25,12 @@ type LoopSpec struct {
 	Invariants []*Clause
 	Decreases  *Clause
 	GhostUpd   []*Clause
+	GhostInit  []*Clause
+}
+
+type GhostDecl struct {
+	Name   string
+	Params []string
 }
 
 type FuncSpec struct {
@@ -44,6 +50,8 @@ type FuncSpec struct {
 	PanicsIf  []*Clause
 	Decreases *Clause
 	Ghosts    []string
+	GhostFns  []*GhostDecl
+	GhostFinal []*Clause
 	Iface     string // for interface method contracts: interface name
 	File      string
 	Line      int
@@ -62,6 +70,7 @@ type SpecFunc struct {
 	Body    ast.Expr // nil => uninterpreted
 	BodySrc string
 	Pkg     string
+	Macro   bool // expanded in place (may read the heap of the calling scope)
 }
 
 type Axiom struct {
@@ -80,7 +89,7 @@ type Contracts struct {
 }
 
 var clauseKW = map[string]bool{"prop": true, "requires": true, "ensures": true, "assigns": true, "loop": true,
-	"decreases": true, "ghost": true, "panics_if": true, "trusted": true, "noinline": true, "pure": true, "allocates": true}
+	"decreases": true, "ghost": true, "ghost_final": true, "panics_if": true, "trusted": true, "noinline": true, "pure": true, "allocates": true}
 
 var headRe = regexp.MustCompile(`^func\s*(\(\s*(\w+)\s+(\*?\w+)\s*\))?\s*([\w$.]+)\s*\((.*?)\)\s*(\(.*\)|[\w.*\[\]]+)?\s*$`)
 
@@ -166,6 +175,16 @@ func loadContracts(files []string, pkgNames []string) (*Contracts, error) {
 				cur.Params = parseNames(m[2])
 				cs.Funcs[pkg+"."+cur.Key] = cur
 				lastClause, lastSpec, lastAxiom = nil, nil, nil
+			case word == "spec" && strings.HasPrefix(rest, "macro"):
+				sf, err := parseSpecFunc("func"+strings.TrimPrefix(rest, "macro"), pkg)
+				if err != nil {
+					return nil, fmt.Errorf("%s:%d: %v", file, ln+1, err)
+				}
+				sf.Macro = true
+				cs.SpecFuncs[sf.Name] = sf
+				cs.SpecOrder = append(cs.SpecOrder, sf.Name)
+				cur, lastClause, lastAxiom = nil, nil, nil
+				lastSpec = sf
 			case word == "spec":
 				// spec func name(params) ret = expr   |  spec func name(params) ret uninterpreted
 				sf, err := parseSpecFunc(rest, pkg)
@@ -206,6 +225,17 @@ func loadContracts(files []string, pkgNames []string) (*Contracts, error) {
 						cur.Decreases = cl
 					}
 					lastClause = cl
+				case "ghost_final":
+					gm := regexp.MustCompile(`^(\w+)\s*\(([\w\s,]*)\)\s*:=\s*(.*)$`).FindStringSubmatch(rest)
+					if gm == nil {
+						return nil, fmt.Errorf("%s:%d: bad ghost assignment %q", file, ln+1, rest)
+					}
+					cl := &Clause{Src: gm[3], Line: ln + 1, File: file, Label: gm[1]}
+					for _, pn := range strings.Split(gm[2], ",") {
+						cl.Props = append(cl.Props, strings.TrimSpace(pn))
+					}
+					cur.GhostFinal = append(cur.GhostFinal, cl)
+					lastClause = cl
 				case "assigns":
 					cur.Assigns = rest
 				case "trusted":
@@ -219,6 +249,9 @@ func loadContracts(files []string, pkgNames []string) (*Contracts, error) {
 					cur.Allocates = true
 				case "ghost":
 					cur.Ghosts = append(cur.Ghosts, rest)
+					if m := regexp.MustCompile(`^(\w+)\s*\((.*?)\)`).FindStringSubmatch(rest); m != nil {
+						cur.GhostFns = append(cur.GhostFns, &GhostDecl{Name: m[1], Params: parseNames(m[2])})
+					}
 				case "loop":
 					// loop N: invariant e | decreases e | ghost_update ...
 					m := regexp.MustCompile(`^(\d+)\s*:\s*(\w+)\s+(.*)$`).FindStringSubmatch(rest)
@@ -237,8 +270,21 @@ func loadContracts(files []string, pkgNames []string) (*Contracts, error) {
 						ls.Invariants = append(ls.Invariants, cl)
 					case "decreases":
 						ls.Decreases = cl
-					case "ghost_update":
-						ls.GhostUpd = append(ls.GhostUpd, cl)
+					case "ghost_update", "ghost_init":
+						gm := regexp.MustCompile(`^(\w+)\s*\(([\w\s,]*)\)\s*:=\s*(.*)$`).FindStringSubmatch(m[3])
+						if gm == nil {
+							return nil, fmt.Errorf("%s:%d: bad ghost assignment %q", file, ln+1, m[3])
+						}
+						cl.Label = gm[1]
+						for _, pn := range strings.Split(gm[2], ",") {
+							cl.Props = append(cl.Props, strings.TrimSpace(pn))
+						}
+						cl.Src = gm[3]
+						if m[2] == "ghost_update" {
+							ls.GhostUpd = append(ls.GhostUpd, cl)
+						} else {
+							ls.GhostInit = append(ls.GhostInit, cl)
+						}
 					default:
 						return nil, fmt.Errorf("%s:%d: bad loop clause kind %q", file, ln+1, m[2])
 					}
@@ -265,12 +311,14 @@ func loadContracts(files []string, pkgNames []string) (*Contracts, error) {
 		all = append(all, fs.Requires...)
 		all = append(all, fs.Ensures...)
 		all = append(all, fs.PanicsIf...)
+		all = append(all, fs.GhostFinal...)
 		if fs.Decreases != nil {
 			all = append(all, fs.Decreases)
 		}
 		for _, l := range fs.Loops {
 			all = append(all, l.Invariants...)
 			all = append(all, l.GhostUpd...)
+			all = append(all, l.GhostInit...)
 			if l.Decreases != nil {
 				all = append(all, l.Decreases)
 			}
